@@ -17,6 +17,7 @@ func init() {
 	vr.Register("Harness_C06_realtime_order", Harness_C06_realtime_order)
 	vr.Register("Harness_C06_history_nyctalerts", Harness_C06_history_nyctalerts)
 	vr.Register("Harness_C06_history_plain", Harness_C06_history_plain)
+	vr.Register("Harness_C06_history_realtime_zone", Harness_C06_history_realtime_zone)
 	vr.Register("Harness_C06_history_static", Harness_C06_history_static)
 }
 
@@ -74,10 +75,15 @@ func hRealtimeMsg() *gtfsrt.FeedMessage {
 	vr.Assume(va != "" && vb != "" && va != vb)
 	ta, tb := vr.Str("trip.a"), vr.Str("trip.b")
 	vr.Assume(ta != "" && tb != "" && ta != tb)
+	e3 := &gtfsrt.TripUpdate{Trip: &gtfsrt.TripDescriptor{TripId: &tb}}
+	if vr.Param("DUPV", 0) == 1 {
+		// a second trip claiming the first vehicle (not conflict-free, but a parse of it must still be deterministic)
+		e3.Vehicle = &gtfsrt.VehicleDescriptor{Id: &va}
+	}
 	return &gtfsrt.FeedMessage{Header: &gtfsrt.FeedHeader{GtfsRealtimeVersion: &v}, Entity: []*gtfsrt.FeedEntity{
 		{Id: hStr("e1"), Vehicle: &gtfsrt.VehiclePosition{Vehicle: &gtfsrt.VehicleDescriptor{Id: &va}, Trip: &gtfsrt.TripDescriptor{TripId: &ta}}},
 		{Id: hStr("e2"), Vehicle: &gtfsrt.VehiclePosition{Vehicle: &gtfsrt.VehicleDescriptor{Id: &vb}}},
-		{Id: hStr("e3"), TripUpdate: &gtfsrt.TripUpdate{Trip: &gtfsrt.TripDescriptor{TripId: &tb}}},
+		{Id: hStr("e3"), TripUpdate: e3},
 		{Id: hStr("e4"), Alert: &gtfsrt.Alert{InformedEntity: []*gtfsrt.EntitySelector{
 			{Trip: &gtfsrt.TripDescriptor{RouteId: &ra}}, {Trip: &gtfsrt.TripDescriptor{RouteId: &rb}}}}},
 	}}
@@ -148,6 +154,37 @@ func Harness_C06_history_plain() {
 		return
 	}
 	vr.Assert("C06.history.plain", vr.And(vr.DeepEq(rb.Alerts, fresh.Alerts), vr.DeepEq(rb.Trips, fresh.Trips), vr.DeepEq(rb.Vehicles, fresh.Vehicles)))
+}
+
+// The same realtime message (a trip with start_date and start_time) parsed
+// under one zone and then under another in the same process: the second
+// result carries local midnight of the date in the second zone.
+func Harness_C06_history_realtime_zone() {
+	date := vr.OneOf("date", "20240101", "20240310", "20240704")
+	names := []string{"UTC", "America/New_York", "Asia/Kolkata", "Pacific/Apia"}
+	load := func(i int) *time.Location {
+		l, err := time.LoadLocation(names[i])
+		if err != nil {
+			return time.UTC
+		}
+		return l
+	}
+	za := load(hConcretize(vr.Int("zone.a", 0, 3), 0, 3))
+	zb := load(hConcretize(vr.Int("zone.b", 0, 3), 0, 3))
+	ver, id, tid, st := "2.0", "e", vr.Str("trip.id"), "08:30:00"
+	msg := &gtfsrt.FeedMessage{Header: &gtfsrt.FeedHeader{GtfsRealtimeVersion: &ver}, Entity: []*gtfsrt.FeedEntity{
+		{Id: &id, TripUpdate: &gtfsrt.TripUpdate{Trip: &gtfsrt.TripDescriptor{TripId: &tid, StartDate: &date, StartTime: &st}}}}}
+	_, errA := gtfs.ParseRealtime(vr.Marshal(msg), &gtfs.ParseRealtimeOptions{Timezone: za})
+	rb, errB := gtfs.ParseRealtime(vr.Marshal(msg), &gtfs.ParseRealtimeOptions{Timezone: zb})
+	vr.Assert("C06.returns", errA == nil && errB == nil && rb != nil)
+	if rb == nil || len(rb.Trips) != 1 {
+		vr.Assert("C06.history.realtime_zone", false)
+		return
+	}
+	y, m, d := hAtoi(date[0:4]), hAtoi(date[4:6]), hAtoi(date[6:8])
+	want := time.Date(y, time.Month(m), d, 0, 0, 0, 0, zb)
+	got := rb.Trips[0].ID
+	vr.Assert("C06.history.realtime_zone", got.HasStartDate && got.StartDate.Equal(want) && got.StartDate.Location() == zb)
 }
 
 func hDatedFeed(tz, date, service string) []vr.File {
